@@ -83,3 +83,61 @@ def routing(fx):
                                    "(futures are registered by message type, the per-digest registry is unused); the documented one-search-per-command "
                                    "workflow is not affected (SeqSpec satisfies RightResult)")
     return out
+
+
+def alias(tier_):
+    """AliasSM.tla: the alias registry of service_name_handler.py (write-once map that survives restarts)."""
+    import json
+    import pathlib
+    from common import parse_printed, tla_value, pmap
+    import fe_server as fs
+    fs.setup_env(REPO)
+    D = 4 if tier_ == "quick" else 5
+    cfg = ('CONSTANTS Names = {"n1","n2"}\nSids = {"s1","s2"}\nD = %d\nSPECIFICATION MCSpec\nINVARIANT Emit\nPROPERTY WriteOnce\nCHECK_DEADLOCK FALSE\n' % D)
+    r = run_tlc("MC_AliasSM", cfg, workers=4, heap="1g", name="alias")
+    hists = sorted({repr(tla_value(x)[1]) for x in parse_printed(r.out, "H")})
+    hists = [eval(h) for h in hists]
+    base = subdir("growth-alias")
+
+    def replay(a):
+        k, h = a
+        import frontend.client.services.service_name_handler as snh
+        d = pathlib.Path(base) / ("h%d" % k)
+        d.mkdir(parents=True, exist_ok=True)
+        snh._PROGRAM_DIR_PATH = d
+        snh.SERVICE_MAPPING_PATH = d / "service_mapping.json"
+        snh.read_service_mapping, snh.write_service_mapping = snh._get_service_mapping_read_and_write_function()
+        ev = []
+        for step in h:
+            if step[0] == "record":
+                try:
+                    snh.record_sname_id_pair(step[1], step[2])
+                    out = "ok"
+                except KeyError:
+                    out = "refused"
+                except Exception as ex:
+                    out = "raised:" + type(ex).__name__
+                ev.append({"e": "record", "n": step[1], "s": step[2], "out": out})
+            elif step[0] == "get":
+                try:
+                    res = snh.get_service_id_by_sname(step[1])
+                    out = "ok"
+                except KeyError:
+                    res, out = "none", "refused"
+                except Exception as ex:
+                    res, out = "none", "raised:" + type(ex).__name__
+                ev.append({"e": "get", "n": step[1], "out": out, "res": res if isinstance(res, str) else "?"})
+            else:       # a new process: the closure cache is gone
+                snh.read_service_mapping, snh.write_service_mapping = snh._get_service_mapping_read_and_write_function()
+                ev.append({"e": "restart", "out": "ok"})
+        shutil.rmtree(d, ignore_errors=True)
+        return ev
+    evs = pmap(replay, list(enumerate(hists)), nproc=8)
+    traces = [{"tid": "a%d" % k, "ev": ev} for k, ev in enumerate(evs)]
+    v, agg = validate_traces("Trace_AliasSM", traces, consts='CONSTANTS Names = {"n1","n2"}\nSids = {"s1","s2"}\n', name="alias", shards=4)
+    bad = [(hists[int(t[1:])], x) for t, x in v.items() if not x["ok"]]
+    out = {"spec": "spec/fe/AliasSM.tla", "model_states": r.distinct, "histories": len(hists), "traces_validated": len(traces),
+           "rejected": len(bad), "observations": []}
+    for h, x in bad[:5]:
+        out["observations"].append("alias registry deviates from the write-once map: step %d %s in history %s" % (x["step"], x["clause"], h))
+    return out
